@@ -3,8 +3,10 @@
    lemma of the development, followed by Print Assumptions. *)
 Require Import List ZArith Arith.
 From Dasp Require Import Base.Res Base.ListX Ring.Bounded Ring.BoundedSpec Ring.BoundedProofs
-  Ring.Fixed Ring.FixedSpec Ring.FixedProofs Ring.RingExamples Ring.IndexArith.
+  Ring.Fixed Ring.FixedSpec Ring.FixedProofs Ring.RingExamples Ring.IndexArith
+  Ring.RingPrim Ring.RingGenGlue Ring.RingGenEquiv Ring.RingGenExamples Ring.RingGenCkEquiv.
 From Dasp Require Ring.RingRun Ring.RingRunNorm.
+From DaspGen Require Import RingGen RingGenCk.
 Import ListNotations.
 
 (* Every operation, from every valid state over every capacity, returns what the
@@ -115,3 +117,116 @@ Theorem c06_run_index_normalisation_sound : forall (b : bounded Z) (f : fixed Z)
    | Some p', Some p => fstep f p' = fstep f p | None, None => True | _, _ => False end).
 Proof. exact RingRunNorm.run_index_normalisation_sound. Qed.
 Print Assumptions c06_run_index_normalisation_sound.
+
+(* ---- the tie by translation: gen/RingGen.v is regenerated from dasp_ring_buffer/src/lib.rs on every
+   run (translate/ring2coq.py); the model the theorems above are about IS that translation. ---- *)
+
+(* Every method of Bounded and DrainBounded, as translated from the source, equals the hand model's
+   definition on ALL inputs (valid or not; same value, same panic, same UB).  [gen_set], [gen_index_set],
+   [gen_map_in_place], [gen_slices_mut_view], [gen_drain] are the generated get_mut / index_mut / iter_mut /
+   slices_mut / drain + DrainBounded::next composed with what the caller does with the references or the
+   iterator they return (Ring/RingGenGlue.v); [gen_step]/[gen_run] are [step]/[run] over the generated methods. *)
+Theorem c06_gen_bounded_agrees : forall (A : Type),
+  ((forall s l (d : list A), Bounded_from_raw_parts s l d = from_raw_parts s l d) /\
+   (forall d : list A, Bounded_from_full d = from_full d) /\
+   (forall d : list A, Bounded_from d = from_empty d) /\
+   (forall d : list A, Bounded_from_iter d = from_empty d) /\
+   (forall s l (d : list A), Bounded_from_raw_parts_unchecked s l d = Ok {| start := s; len := l; data := d |}) /\
+   (forall b : bounded A, Bounded_into_raw_parts b = Ok (start b, len b, data b)) /\
+   (forall b : bounded A, Bounded_max_len b = Ok (max_len b)) /\
+   (forall b : bounded A, Bounded_len b = Ok (len b)) /\
+   (forall b : bounded A, Bounded_is_empty b = Ok (is_empty b)) /\
+   (forall b : bounded A, Bounded_is_full b = Ok (is_full b)) /\
+   (forall (b : bounded A) x, Bounded_push b x = push b x) /\
+   (forall b : bounded A, Bounded_pop b = pop b) /\
+   (forall (b : bounded A) i, Bounded_get b i = get b i) /\
+   (forall (b : bounded A) i x, gen_set b i x = set b i x) /\
+   (forall (b : bounded A) i, Bounded_index b i = index b i) /\
+   (forall (b : bounded A) i x, gen_index_set b i x = index_set b i x) /\
+   (forall b : bounded A, Bounded_slices b = slices b) /\
+   (forall b : bounded A, gen_slices_mut_view b = slices b) /\
+   (forall b : bounded A, Bounded_iter b = iter b) /\
+   (forall g (b : bounded A), gen_map_in_place g b = map_in_place g b) /\
+   (forall b : bounded A, Bounded_drain b = Ok (b, b)) /\
+   (forall b : bounded A, DrainBounded_next b = pop b) /\
+   (forall b : bounded A, DrainBounded_size_hint b = Ok (len b, Some (len b))) /\
+   (forall b : bounded A, DrainBounded_len b = Ok (len b)) /\
+   (forall k (b : bounded A), gen_drain k b = drain k b) /\
+   (forall xs (b : bounded A), Bounded_extend b xs = extend xs b)) /\
+  (forall (b : bounded A) (o : op A), gen_step b o = step b o) /\
+  (forall (ops : list (op A)) (b : bounded A), gen_run b ops = run b ops).
+Proof. exact @gen_bounded_agrees. Qed.
+Print Assumptions c06_gen_bounded_agrees.
+
+(* The same for Fixed ([gen_fset]/[gen_findex_set]: get_mut / index_mut + the caller's store;
+   [gen_fmap_in_place]: iter_mut + the caller's visit; [gen_fiter_loop]: iter_loop().take(k)). *)
+Theorem c06_gen_fixed_agrees : forall (A : Type),
+  ((forall i (d : list A), Fixed_from_raw_parts i d = f_from_raw_parts i d) /\
+   (forall d : list A, Fixed_from d = f_from d) /\
+   (forall d : list A, Fixed_from_iter d = f_from d) /\
+   (forall i (d : list A), Fixed_from_raw_parts_unchecked i d = Ok {| first := i; fdata := d |}) /\
+   (forall f : fixed A, Fixed_into_raw_parts f = Ok (first f, fdata f)) /\
+   (forall f : fixed A, Fixed_len f = Ok (flen f)) /\
+   (forall (f : fixed A) x, Fixed_push f x = fpush f x) /\
+   (forall (f : fixed A) i, Fixed_get f i = fget f i) /\
+   (forall (f : fixed A) i, Fixed_index f i = fget f i) /\
+   (forall (f : fixed A) i x, gen_fset f i x = fset f i x) /\
+   (forall (f : fixed A) i x, gen_findex_set f i x = fset f i x) /\
+   (forall (f : fixed A) i, Fixed_set_first f i = fset_first f i) /\
+   (forall f : fixed A, Fixed_slices f = fslices f) /\
+   (forall f : fixed A, gen_fslices_mut_view f = fslices f) /\
+   (forall f : fixed A, exists st, Fixed_iter_loop f = Ok st /\ forall j, st j = floop_nth f j) /\
+   (forall (f : fixed A) k, gen_fiter_loop f k = Ok (fiter_loop f k)) /\
+   (forall f : fixed A, Fixed_iter f = Ok (fiter f)) /\
+   (forall g (f : fixed A), gen_fmap_in_place g f = fmap_in_place g f) /\
+   (forall xs (f : fixed A), Fixed_extend f xs = fextend xs f) /\
+   (forall xs (f : fixed A), gen_fpushes xs f = fpushes xs f)) /\
+  (forall (f : fixed A) (o : fop A), gen_fstep f o = fstep f o) /\
+  (forall (ops : list (fop A)) (f : fixed A), gen_frun f ops = frun f ops).
+Proof. exact @gen_fixed_agrees. Qed.
+Print Assumptions c06_gen_fixed_agrees.
+
+(* ... so the history theorems hold of the interpreters over the regenerated methods. *)
+Theorem c06_gen_bounded_history : forall (A : Type) (ops : list (op A)) (b : bounded A), Inv b ->
+  exists b' vs, gen_run b ops = Ok (b', vs) /\ Inv b' /\ max_len b' = max_len b /\
+                spec_run (max_len b) (abs b) ops = (abs b', map obs_abs vs).
+Proof. exact @gen_run_refines. Qed.
+Print Assumptions c06_gen_bounded_history.
+
+Theorem c06_gen_fixed_history : forall (A : Type) (ops : list (fop A)) (f : fixed A), InvF f ->
+  exists f' vs, gen_frun f ops = Ok (f', vs) /\ InvF f' /\ flen f' = flen f /\
+                fspec_run (fabs f) ops = (fabs f', map obs_abs vs).
+Proof. exact @gen_frun_refines. Qed.
+Print Assumptions c06_gen_fixed_history.
+
+Theorem c06_gen_fixed_delay : forall (A : Type) (f : fixed A) (xs : list A), InvF f ->
+  exists f', gen_fpushes xs f = Ok (f', firstn (length xs) (fq f ++ xs)) /\ InvF f' /\ flen f' = flen f.
+Proof. exact @gen_fixed_delay. Qed.
+Print Assumptions c06_gen_fixed_delay.
+
+(* The 64-bit reading of the regenerated source: gen/RingGenCk.v is the same translation with every usize `+`, `*`,
+   `+=` panicking when the result reaches the modulus M (read M = 2^64).  In every valid state over storage of at
+   most M/2 elements (Rust: a slice of a non-zero-sized type has at most isize::MAX bytes) it equals the unbounded
+   reading, for EVERY index and element: no addition the source performs on indices can overflow -- so the nat
+   models are exact for all usize arguments, and a build without overflow checks cannot wrap either.  (The methods
+   not listed contain no usize addition: their two readings are the same text.)  The form of Fixed::get before
+   /repo daaa156 does not pass (defect F9). *)
+Theorem c06_gen_no_index_overflow : forall (A : Type) (M : nat),
+  (forall b : bounded A, Inv b -> 2 * max_len b <= M ->
+     (forall x, Bounded_push_ck M b x = Bounded_push b x) /\
+     Bounded_pop_ck M b = Bounded_pop b /\
+     (forall i, Bounded_get_ck M b i = Bounded_get b i) /\
+     (forall i, Bounded_get_mut_ck M b i = Bounded_get_mut b i) /\
+     (forall i, Bounded_index_ck M b i = Bounded_index b i) /\
+     (forall i, Bounded_index_mut_ck M b i = Bounded_index_mut b i) /\
+     DrainBounded_next_ck M b = DrainBounded_next b /\
+     (forall xs, Bounded_extend_ck M b xs = Bounded_extend b xs)) /\
+  (forall f : fixed A, InvF f -> 2 * flen f <= M ->
+     (forall x, Fixed_push_ck M f x = Fixed_push f x) /\
+     (forall i, Fixed_get_ck M f i = Fixed_get f i) /\
+     (forall i, Fixed_get_mut_ck M f i = Fixed_get_mut f i) /\
+     (forall i, Fixed_index_ck M f i = Fixed_index f i) /\
+     (forall i, Fixed_index_mut_ck M f i = Fixed_index_mut f i) /\
+     (forall xs, Fixed_extend_ck M f xs = Fixed_extend f xs)).
+Proof. exact gen_no_index_overflow. Qed.
+Print Assumptions c06_gen_no_index_overflow.
